@@ -43,6 +43,10 @@ def comp_txt(c):
         return f"{cond_txt(c[1], c[2])} -> {act_txt(c[3])}"
     if c[0] == "arg":       # the one-argument forms: stop(cond), skip(cond), fail_and_stop(cond)
         return act_txt(c[2])[:-1] + cond_txt(c[1], False) + ")"
+    if c[0] == "and":       # and(cond, act): short-circuits, so it is 'cond -> act' voting cond
+        return f"and({cond_txt(c[1], False)}, {act_txt(c[2])})"
+    if c[0] == "ornot":     # or(not(cond), act): act runs when cond holds; the vote is always yes
+        return f"or(not({cond_txt(c[1], False)}), {act_txt(c[2])})"
     return cond_txt(c[1], False)
 
 
@@ -64,6 +68,10 @@ def comp_lit(c):
         return f"CWhen {cond_lit(c[1])} {blit(c[2])} {act_lit(c[3])}"
     if c[0] == "arg":
         return f"CArg {cond_lit(c[1])} {act_lit(c[2])}"
+    if c[0] == "and":
+        return f"CWhen {cond_lit(c[1])} false {act_lit(c[2])}"
+    if c[0] == "ornot":
+        return f"CWhen {cond_lit(c[1])} true {act_lit(c[2])}"
     return f"CCond {cond_lit(c[1])}"
 
 
@@ -84,6 +92,10 @@ def controls(fire):
     yield ("arg", ("gt", fire), ("stop",))
     yield ("arg", ("eq", fire), ("skip",))
     yield ("arg", ("gt", fire), ("skip",))
+    yield ("and", ("eq", fire), ("stop",))
+    yield ("ornot", ("eq", fire), ("stop",))
+    yield ("and", ("gt", fire), ("skip",))
+    yield ("ornot", ("eq", fire), ("skip",))
 
 
 def programs(rng, quick):
